@@ -156,13 +156,27 @@ func main() {
 	// which configurations run their admin rows
 	adminRun := map[string]bool{}
 	withAdm, withoutAdm := []string{}, []string{}
+	// configurations in which every credential class exists (global tokens and some route with own tokens) come first
+	rich := func(c Cfg) bool {
+		any := false
+		for _, o := range c.Own {
+			any = any || o
+		}
+		return c.Glob && any
+	}
+	var poorAdm []string
 	for _, id := range ids {
-		if cfgOf[id].Adm {
+		switch {
+		case cfgOf[id].Adm && rich(cfgOf[id]):
 			withAdm = append(withAdm, id)
-		} else {
+		case cfgOf[id].Adm:
+			poorAdm = append(poorAdm, id)
+		default:
 			withoutAdm = append(withoutAdm, id)
 		}
 	}
+	nRich := len(withAdm)
+	withAdm = append(withAdm, poorAdm...)
 	pick := func(l []string, n int) {
 		if n <= 0 || n > len(l) {
 			n = len(l)
@@ -178,7 +192,11 @@ func main() {
 			adminRun[l[(off+i)%len(l)]] = true
 		}
 	}
-	pick(withAdm, opt.adminN)
+	if opt.adminN > 0 && opt.adminN <= nRich {
+		pick(withAdm[:nRich], opt.adminN)
+	} else {
+		pick(withAdm, opt.adminN)
+	}
 	if opt.adminN > 0 {
 		pick(withoutAdm, 1)
 	} else {
